@@ -38,7 +38,7 @@ func (s *AggregateSet) String() string {
 func (s *AggregateSet) Merge(query *Query, set *AggregateSet) error {
 	s.Samples += set.Samples
 	//dlog.Common.Trace("Merge", set)
-	for _, sc := range query.Select {
+	for _, sc := range query.Aggregations {
 		storage := sc.FieldStorage
 		// Only merge values the other set actually has, a missing value is not a zero
 		// (it would be taken for the minimum, or overwrite the last string).
